@@ -203,6 +203,7 @@ func cmdCheck(args []string) int {
 	trace := fs.Bool("trace", false, "print one line per path")
 	noReplay := fs.Bool("no-replay", false, "skip native replay (debugging only; never registered)")
 	workers := fs.Int("workers", 16, "parallel workers")
+	maxPaths := fs.Int("max-paths", 0, "stop after this many paths (debugging)")
 	var id string
 	if len(args) > 0 && !strings.HasPrefix(args[0], "-") {
 		id = args[0]
@@ -266,6 +267,9 @@ func cmdCheck(args []string) int {
 		if cfg.MaxSteps == 0 {
 			cfg.MaxSteps = 2000000
 		}
+		if *maxPaths > 0 {
+			cfg.MaxPaths = *maxPaths
+		}
 		budget := tc.Budget
 		if budget == 0 {
 			budget = 600
@@ -277,6 +281,23 @@ func cmdCheck(args []string) int {
 		fmt.Printf("harness %s: paths=%d completed=%d pruned=%d aborted=%v obligations=%d discharged=%d trivial=%d violations=%d known=%d inconclusive=%d queries=%d solver=%.1fs wall=%.1fs\n",
 			h.Name, res.Paths, res.Completed, res.Pruned, res.Aborted, res.Obligations, res.Discharged, res.TrivialTrue,
 			len(res.Violations), len(res.Known), res.Inconclusive, res.Solver.Queries, res.Solver.Time.Seconds(), res.Wall.Seconds())
+		if *trace || os.Getenv("VP_SITES") != "" {
+			type kv struct {
+				k string
+				v int
+			}
+			var kvs []kv
+			for k, v := range res.Sites {
+				kvs = append(kvs, kv{k, v})
+			}
+			sort.Slice(kvs, func(i, j int) bool { return kvs[i].v > kvs[j].v })
+			for i, x := range kvs {
+				if i >= 15 {
+					break
+				}
+				fmt.Printf("  fork-site %8d  %s\n", x.v, x.k)
+			}
+		}
 		for _, e := range res.EngineErrors {
 			fmt.Println("  ENGINE-ERROR:", e)
 			broken = append(broken, h.Name+": "+e)
